@@ -854,8 +854,8 @@ func (C20Mon) After(w *core.World, st *core.Step) {
 		}
 		_, global := pa.Flag("--global")
 		sk := strings.Split(pa.Pos[0], ".")
-		if len(sk) != 2 || sk[0] == "" || sk[1] == "" {
-			return
+		if len(sk) != 2 || sk[0] == "" || sk[1] == "" || strings.Contains(sk[1], "=") || strings.Contains(pa.Pos[0], "\n") {
+			return // names the file format cannot hold: see the C20.unrepresentable workload
 		}
 		val := pa.Pos[1]
 		if st.Exit != 0 {
@@ -1058,6 +1058,33 @@ func runC20(c *core.Ctx) {
 			w.Write(k.freshPath(), k.content())
 			k.AddAllTracked()
 			k.goit("commit", "-m", k.message())
+		}
+		if w.Hist%6 == 4 {
+			// names and values the file format cannot hold (an empty section or key, '=' in a key, a line feed): refusing
+			// them is fine, writing them is fine if they read back -- a repository that no command can open any more,
+			// or a key that turns into another key, is not
+			w.Goit("config", "core.before", "kept")
+			for _, a := range [][]string{{".k", "v"}, {"s.", "v"}, {".", "v"}, {"a.b=c", "v"}, {"user.name", "x\ny"}, {"a\nb.c", "v"}, {"--global", ".g", "v"}, {"--global", "g.k", "x\n[user]"}} {
+				st := w.Goit(append([]string{"config"}, a...)...)
+				after := w.Goit("config", "core.after", "1")
+				ro := w.Goit("ls-files")
+				c.Oracle("C20.unrepresentable")
+				c.Class("C20.unrepresentable|" + strings.ReplaceAll(a[len(a)-2], "\n", "<LF>") + fmt.Sprintf("|exit%d", st.Exit))
+				trig := "unrepresentable:" + strings.ReplaceAll(a[len(a)-2], "\n", "<LF>")
+				if ro.Exit != 0 || after.Exit != 0 {
+					w.Fail("C20.unrepresentable", "repository-unusable-after-config", trig, "%s (exit %d); afterwards `config core.after 1` exits %d and `ls-files` exits %d: %s", st.String(), st.Exit, after.Exit, ro.Exit, clipS(firstLine(ro.Stdout+ro.Stderr+after.Stderr), 160))
+					break
+				}
+				if raw := string(w.State().GoitFiles()["config"]); !strings.Contains(raw, "before = kept") {
+					w.Fail("C20.unrepresentable", "other-key-lost", trig, "%s (exit %d): core.before is gone from the local file: %q", st.String(), st.Exit, clipS(raw, 200))
+					break
+				}
+				if a[0] == "a.b=c" && st.Exit == 0 {
+					if raw := string(w.State().GoitFiles()["config"]); !strings.Contains(raw, "b=c = v") {
+						w.Fail("C20.unrepresentable", "key-altered", trig, "%s exits 0; after the next write the local file holds %q", st.String(), clipS(raw, 200))
+					}
+				}
+			}
 		}
 		if w.Hist == 3 || (c.Thorough() && w.Hist%400 == 3) {
 			// several hundred keys in a few sections, then rewrites of early ones: no key may be lost on the way
